@@ -267,6 +267,8 @@ func runPipeline(r *kit.Rec, c ScriptCase, cc *kit.Case) {
 		return
 	}
 	cc.Label("accepted")
+	// render before the pipeline is marshalled for the first time (fingerprint marshals; see Fingerprint.Mutated)
+	s2, tickErr := buildTick(p)
 	fp := fingerprint(p)
 	seen := map[string]bool{}
 	for _, k := range fp.Kinds {
@@ -285,12 +287,16 @@ func runPipeline(r *kit.Rec, c ScriptCase, cc *kit.Case) {
 		return
 	}
 	if c.Law != "json" {
-		pipelineTickLaw(r, c, p, fp, cc)
+		pipelineTickLaw(r, c, s2, tickErr, fp, cc)
 	}
 }
 
 func pipelineJSONLaw(r *kit.Rec, c ScriptCase, p *pipeline.Pipeline, fp Fingerprint, cc *kit.Case) {
 	w := c.Witness
+	if fp.Mutated != "" {
+		cc.Fail("pipeline-json/marshal-mutates-pipeline", "json.Marshal(pipeline) changed the pipeline it was given; %s\nscript:\n%s", fp.Mutated, c.Script)
+		return
+	}
 	if skip(r, w, anyNode(p, func(n pipeline.Node) bool {
 		return (n.Desc() == "where" || n.Desc() == "groupby") && parentIs(n, "from", "query")
 	}), "K8 pipeline JSON: |where() or |groupBy() node directly under from()/query() (Unmarshal: parent has no where/groupBy clause)") {
@@ -335,10 +341,9 @@ func buildTick(p *pipeline.Pipeline) (s string, err error) {
 	return ast.Format(&a.Program), nil
 }
 
-func pipelineTickLaw(r *kit.Rec, c ScriptCase, p *pipeline.Pipeline, fp Fingerprint, cc *kit.Case) {
+func pipelineTickLaw(r *kit.Rec, c ScriptCase, s2 string, err error, fp Fingerprint, cc *kit.Case) {
 	w := c.Witness
 	_ = w
-	s2, err := buildTick(p)
 	if err != nil {
 		cc.Fail("pipeline-tick/build-error", "pipeline/tick AST.Build: %v\nscript:\n%s", err, c.Script)
 		return
@@ -490,13 +495,13 @@ func lambdaLaws(r *kit.Rec, name string, c LambdaCase, l *ast.LambdaNode, cc *ki
 		// bare: an AST whose formatter-only fields are unset (JSON decoder, direct construction)
 		bare := name == "built-bare" || v.tag == "after-json"
 		if bare {
-			if skip(r, c.Witness, exprHas(c.E, func(e *Expr) bool { return e.K == "re" }), "K2 format of an AST built without the parser: regex literal (RegexNode.Literal unset prints //)") {
+			if skip(r, c.Witness, exprHas(c.E, func(e *Expr) bool { return e.K == "re" }), classK2) {
 				continue
 			}
 			if skip(r, c.Witness, exprNeedsAnyParens(c.E), "K3 format of an AST built without the parser: the tree needs parentheses (BinaryNode.Parens unset)") {
 				continue
 			}
-			if skip(r, c.Witness, exprHas(c.E, func(e *Expr) bool { return e.K == "str" && strings.HasSuffix(e.V, `\`) }), "K5 format of an AST built without the parser: string ending in a backslash (needs triple quotes, StringNode.TripleQuotes unset)") {
+			if skip(r, c.Witness, exprHas(c.E, func(e *Expr) bool { return e.K == "str" && strings.HasSuffix(e.V, `\`) }), classK5) {
 				continue
 			}
 		}
